@@ -334,3 +334,55 @@ def find_model_by_concretisation(hyps, negated_claim, rng: random.Random, tries=
         if r.status == "sat":
             return r
     return Result("unknown", None, 0.0, tag)
+
+
+def has_apps(roots):
+    return any(n.op == "app" for n in S.topo([S.lift(r) for r in roots]))
+
+
+def numeric_witness(hyps, goals, seed_model, rng: random.Random, tries=400):
+    """Queries with transcendental applications are decided over an abstraction (one real per application +
+    axioms): an `unsat` is sound, but the model of a `sat` need not respect the true functions.  This looks
+    for a point where the hypotheses and one of `goals` (Sym booleans, in order of preference) hold under
+    FLOAT evaluation with the true functions; the caller confirms it with the solver (concretised query) and
+    by replay on the real code.  Returns {var Sym: Fraction} or None."""
+    hyps = [S.lift(h) for h in hyps]
+    goals = [S.lift(g) for g in goals]
+    fv = sorted(S.free_vars(hyps + goals), key=lambda v: v.hid)
+    rv = [v for v in fv if v.sort == S.REAL and v.args[0] != S.PI_NAME]
+    bv = [v for v in fv if v.sort != S.REAL]
+    seed = {v: seed_model.get(v) for v in rv} if seed_model else {}
+
+    def sample(t):
+        env = {}
+        for v in rv:
+            base = seed.get(v)
+            mode = rng.random()
+            if t == 0 and base is not None:
+                x = Fraction(base)
+            elif base is not None and mode < 0.3:
+                x = Fraction(base) + Fraction(rng.randint(-50, 50), 1000)
+            elif mode < 0.65:
+                x = Fraction(rng.randint(1, 999), 1000)
+            elif mode < 0.9:
+                x = Fraction(rng.randint(-1000, 1000), 1000)
+            else:
+                x = Fraction(rng.randint(-4000, 4000), 400)
+            env[v] = x
+        for v in bv:
+            env[v] = bool(seed_model.get(v, False)) if seed_model else False
+        return env
+
+    for t in range(tries):
+        env = sample(t)
+        fenv = {v: (float(x) if isinstance(x, Fraction) else x) for v, x in env.items()}
+        try:
+            val = S.evaluate(hyps + goals, fenv)
+        except (S.SymError, ZeroDivisionError, KeyError, ValueError, OverflowError):
+            continue
+        if not all(val[h.hid] is True or val[h.hid] == 1 for h in hyps):
+            continue
+        for g in goals:
+            if val[g.hid]:
+                return env
+    return None
